@@ -31,6 +31,17 @@ func genC15(r *simrt.Rand, tier string) *simrt.Plan {
 		n = 10 + r.Intn(80)
 	}
 	for i := 0; i < n; i++ {
+		if r.Bool(0.06) {
+			// several calls in one request: writes (possibly to new shards) followed by reads
+			if f := g.field("set"); f != nil {
+				I := []int64{g.node(), g.row()}
+				for k := 0; k < 1+r.Intn(3); k++ {
+					I = append(I, g.col())
+				}
+				ops = append(ops, simrt.Op{K: "multi", S: []string{g.index, f.name}, I: I})
+				continue
+			}
+		}
 		if r.Bool(0.55) {
 			ops = append(ops, g.write())
 			continue
